@@ -747,28 +747,65 @@ Definition ex_f9_fs : fs :=
   let '(f4, _, _) := op_remove ex_fr f3 s3 ex_u0 in
   f4.
 
+Local Arguments calc_id : simpl never.
+
 Lemma ex_f9_fs_val : exists f, ex_f9_fs = f /\ listing f = [calc_id ex_fr ex_u1] /\
   cache_file f = Some [(calc_id ex_fr ex_u0, ex_u0); (calc_id ex_fr ex_u1, ex_u1)].
 Proof. eexists. split; [vm_compute; reflexivity|]. split; vm_compute; reflexivity. Qed.
+
+Lemma sound_two : forall fr a b, sound fr [(calc_id fr a, a); (calc_id fr b, b)].
+Proof.
+  intros fr a b i v [H|[H|[]]]; apply pair_equal_spec in H; destruct H as [<- <-]; reflexivity.
+Qed.
+
+Lemma ex_ids_differ : calc_id ex_fr ex_u0 <> calc_id ex_fr ex_u1.
+Proof. vm_compute. discriminate. Qed.
+
+(* the witness state satisfies the hypotheses of the theorems above, and is an F9 state *)
+Lemma ex_f9_hyps :
+  Inv ex_fr ex_f9_fs fresh /\ ws_intact ex_fr ex_ls ex_lb ex_f9_fs /\ file_nodup ex_f9_fs /\
+  listing ex_f9_fs = [calc_id ex_fr ex_u1] /\
+  cache_file ex_f9_fs = Some [(calc_id ex_fr ex_u0, ex_u0); (calc_id ex_fr ex_u1, ex_u1)] /\
+  f9_state ex_f9_fs fresh = true.
+Proof.
+  destruct ex_f9_fs_val as [f [Ef [HL HC]]]. rewrite Ef.
+  split; [|split; [|split; [|split; [exact HL|split; [exact HC|]]]]].
+  - split; [apply sound_nil|]. intros c Hc. rewrite HC in Hc.
+    assert (Ec : c = [(calc_id ex_fr ex_u0, ex_u0); (calc_id ex_fr ex_u1, ex_u1)]) by congruence.
+    rewrite Ec. apply sound_two.
+  - intros i Hi. rewrite HL in Hi. destruct Hi as [<-|[]].
+    rewrite <- Ef. vm_compute. eexists _, _. repeat split; reflexivity.
+  - intros c Hc. rewrite HC in Hc.
+    assert (Ec : c = [(calc_id ex_fr ex_u0, ex_u0); (calc_id ex_fr ex_u1, ex_u1)]) by congruence.
+    rewrite Ec. change (NoDup [calc_id ex_fr ex_u0; calc_id ex_fr ex_u1]).
+    constructor; [intros [H|[]]; exact (ex_ids_differ H)|]. constructor; [intros []|constructor].
+  - rewrite <- Ef. vm_compute. reflexivity.
+Qed.
 
 Theorem update_cache_exact_refuted :
   exists f, Inv ex_fr f fresh /\ ws_intact ex_fr ex_ls ex_lb f /\ file_nodup f /\
             (exists s', update_cache ex_fr ex_ls f fresh = (f, s', Ok None)) /\
             ~ exact ex_ls f.
 Proof.
-  destruct ex_f9_fs_val as [f [Ef [HL HC]]]. exists f.
-  assert (Hid0 : calc_id ex_fr ex_u0 <> calc_id ex_fr ex_u1) by (vm_compute; discriminate).
-  split; [|split; [|split; [|split]]].
-  - split; [apply sound_nil|]. intros c Hc. rewrite HC in Hc. inversion Hc; subst.
-    intros i v [H|[H|[]]]; inversion H; subst; reflexivity.
-  - intros i Hi. rewrite HL in Hi. destruct Hi as [<-|[]].
-    subst f. vm_compute. eexists _, _. repeat split; reflexivity.
-  - intros c Hc. rewrite HC in Hc. inversion Hc; subst. simpl.
-    constructor; [intros [H|[]]; auto|]. constructor; [intros []|constructor].
-  - subst f. vm_compute. eexists. reflexivity.
-  - intros [c [Hc [_ [K _]]]]. rewrite HC in Hc. inversion Hc; subst.
-    assert (Hin : In (calc_id ex_fr ex_u0) (listing ex_f9_fs)) by (apply K; simpl; auto).
-    rewrite HL in Hin. destruct Hin as [H|[]]. auto.
+  destruct ex_f9_hyps as [H1 [H2 [H3 [HL [HC _]]]]]. exists ex_f9_fs.
+  split; [exact H1|split; [exact H2|split; [exact H3|split]]].
+  - vm_compute. eexists. reflexivity.
+  - intros [c [Hc [_ [K _]]]]. rewrite HC in Hc.
+    assert (Ec : c = [(calc_id ex_fr ex_u0, ex_u0); (calc_id ex_fr ex_u1, ex_u1)]) by congruence.
+    assert (Hin : In (calc_id ex_fr ex_u0) (listing ex_f9_fs)).
+    { apply K. rewrite Ec. left. reflexivity. }
+    rewrite HL in Hin. destruct Hin as [H|[]]. exact (ex_ids_differ (eq_sym H)).
+Qed.
+
+(* collision freedom is satisfiable: on the witness every cached value equals the workspace value *)
+Lemma ex_coll_free : coll_free ex_fr ex_ls ex_f9_fs (map snd (s_cache fresh) ++ file_vals ex_f9_fs).
+Proof.
+  destruct ex_f9_hyps as [_ [_ [_ [HL [HC _]]]]].
+  intros i w v Hi Hw Hv Hc. rewrite HL in Hi. destruct Hi as [<-|[]].
+  assert (Ew : wsv ex_ls ex_f9_fs (calc_id ex_fr ex_u1) = Some ex_u1) by (vm_compute; reflexivity).
+  assert (Ewv : w = ex_u1) by congruence. subst w.
+  unfold file_vals in Hv. rewrite HC in Hv. simpl in Hv. destruct Hv as [<-|[<-|[]]]; [|reflexivity].
+  exfalso. exact (ex_ids_differ Hc).
 Qed.
 
 (* ================================================================ E. licence for the correspondence *)
